@@ -352,9 +352,18 @@ impl Endpoint {
             None,
             &mut self.rng,
         );
-        let tls = config
+        let tls = match config
             .crypto
-            .start_session(config.version, server_name, &params)?;
+            .start_session(config.version, server_name, &params)
+        {
+            Ok(tls) => tls,
+            Err(e) => {
+                // No connection will own `loc_cid`; stop routing it to the handle it was
+                // generated for, which the next connection will get
+                self.index.retire(loc_cid);
+                return Err(e);
+            }
+        };
 
         let conn = self.add_connection(
             ch,
